@@ -517,11 +517,20 @@ func makeClassesReady(p *slip.Package) {
 }
 
 func classChanged(cc slip.Class, p *slip.Package) {
+	var affected []isStandardClass
 	for _, c := range p.AllClasses() {
 		if c.Inherits(cc) {
 			if sc, ok := c.(isStandardClass); ok {
-				sc.mergeSupers()
+				affected = append(affected, sc)
 			}
 		}
+	}
+	// Merge superclasses before their subclasses, a subclass copies the
+	// precedence list of its direct superclasses.
+	sort.SliceStable(affected, func(i, j int) bool {
+		return len(affected[i].precedenceList()) < len(affected[j].precedenceList())
+	})
+	for _, sc := range affected {
+		sc.mergeSupers()
 	}
 }
